@@ -219,30 +219,61 @@ Theorem C19_fun2core_wc_size : forall codata cur k U t cont st s st',
 Proof. exact sz_wc. Qed.
 Print Assumptions C19_fun2core_wc_size.
 
-(* whole programs in which main is not called (since fix f929eb7 of /repo a program that calls main gets one more
-   definition, the entry point  main<n>(params) { main(params, mu~x. exit x) }, whose 4 + #params nodes the bound does not
-   count when the parameters never occur in the source; for such programs the sizes are checked per case only), all
-   definitions incl. the lifted share_* ones.  fun_occ p = the largest number of
+(* whole programs, all definitions incl. the lifted share_* ones and - since fix f929eb7 of /repo, when main is called -
+   the entry point  main<n>(params) { main(params, mu~x. exit x) }  of 5 + #params nodes.  The slack of main's own bound
+   pays for the entry point except, in the node count, for the #params argument variables (the parameters of a definition
+   are not nodes of the source): additive term entry_params p (Model/SizeFun.v) = #params of main when some call targets
+   main, else 0 (C19_entry_params; the term is needed: C19_fun2core_size_without_entry_refuted).  The weighted size counts
+   the parameters and its bound needs no additive term.  fun_occ p = the largest number of
    DISTINCT typed variable occurrences (name, chirality, type) in one definition: for a type-checked
    program at most the parameters and binders of the definition (C19_fun2core_size_scoped); always <= size.
    Node counts: linear in size x (5 + occurrences);  weighted sizes (f_wprog counts the binders of
    clauses and definitions, c_wprog the clause/definition contexts): the form the pipeline needs. *)
-Theorem C19_fun2core_size : forall p c, compile_prog p = Fun2Core.Ok c -> calls_main_prog p = false ->
-  size_cprog c <= size_fcprog p * (10 + 2 * fun_occ p) /\
+Theorem C19_fun2core_size : forall p c, compile_prog p = Fun2Core.Ok c ->
+  size_cprog c <= size_fcprog p * (10 + 2 * fun_occ p) + entry_params p /\
   c_wprog c <= f_wprog p * (12 + 3 * fun_occ p) /\
   fun_occ p <= size_fcprog p.
 Proof.
-  intros p c H Hncm. split; [exact (fun2core_size_nodes p c H Hncm)|]. split; [exact (fun2core_size_weighted p c H Hncm)|].
+  intros p c H. split; [exact (fun2core_size_nodes p c H)|]. split; [exact (fun2core_size_weighted p c H)|].
   exact (fun_occ_le_size p).
 Qed.
 Print Assumptions C19_fun2core_size.
+(* the additive term: 0 when main is not called (so the statement before fix f929eb7 is the instance for such programs),
+   always at most the weighted source size *)
+Theorem C19_entry_params : forall p,
+  (calls_main_prog p = false -> entry_params p = 0) /\ entry_params p <= f_wprog p.
+Proof. intros p. split; [exact (entry_params_ncm p) | exact (entry_params_le p)]. Qed.
+Print Assumptions C19_entry_params.
+(* the entry point has EXACTLY 5 + #params nodes (weighted: 5 + 2 #params) *)
+Theorem C19_fun2core_entry_size : forall k codata d nm ul e ule,
+  compile_main false (entry_fdef d nm) codata ul = Fun2Core.Ok (e, ule) ->
+  cz_defs k e = 5 + len (fdctx d) + k * len (fdctx d).
+Proof. exact entry_size. Qed.
+Print Assumptions C19_fun2core_entry_size.
+(* without the additive term the node bound is FALSE of a value of type fcprog whose call of main passes fewer
+   arguments than main has parameters (`def main(x1 .. x30) { main() }`: 2 source nodes, bound 20, 40 Core nodes); the
+   type checker rejects that program.  (Whether the term can be dropped for arity-consistent programs is open.) *)
+Theorem C19_fun2core_size_without_entry_refuted :
+  ~ (forall p c, compile_prog p = Fun2Core.Ok c -> size_cprog c <= size_fcprog p * (10 + 2 * fun_occ p)).
+Proof. exact fun2core_size_without_entry_refuted. Qed.
+Print Assumptions C19_fun2core_size_without_entry_refuted.
+(* non-vacuity: the call-to-main witness (corpus/fun/call_main_nontail.sc): main is called, one parameter; source 15
+   nodes, output [size_cprog] nodes within the bound *)
+Example C19_fun2core_size_call_main_example :
+  calls_main_prog call_main_witness = true /\ entry_params call_main_witness = 1 /\
+  match compile_prog call_main_witness with
+  | Fun2Core.Ok c => N.leb (size_cprog c) (f2c_bound_nodes call_main_witness) && N.leb (c_wprog c) (f2c_bound_weighted call_main_witness)
+  | Fun2Core.Err _ => false
+  end = true.
+Proof. repeat split; vm_compute; reflexivity. Qed.
+Print Assumptions C19_fun2core_size_call_main_example.
 
 (* in terms of binders, for scoped programs: occ_scoped p (Model/SizeFun.v, a boolean containment check) = every
    typed occurrence of a definition is one of its parameters / let variables / clause parameters / labels at the
    declared type; fun_tb p = the largest number of those in a definition.  This is the stated form
    size x (1 + variables), with the scoping hypothesis it needs. *)
-Theorem C19_fun2core_size_scoped : forall p c, compile_prog p = Fun2Core.Ok c -> calls_main_prog p = false -> occ_scoped p = true ->
-  size_cprog c <= size_fcprog p * (10 + 2 * fun_tb p) /\ c_wprog c <= f_wprog p * (12 + 3 * fun_tb p).
+Theorem C19_fun2core_size_scoped : forall p c, compile_prog p = Fun2Core.Ok c -> occ_scoped p = true ->
+  size_cprog c <= size_fcprog p * (10 + 2 * fun_tb p) + entry_params p /\ c_wprog c <= f_wprog p * (12 + 3 * fun_tb p).
 Proof. exact fun2core_size_scoped. Qed.
 Print Assumptions C19_fun2core_size_scoped.
 
@@ -257,8 +288,8 @@ Proof. exact fun2core_size_statement_12_refuted. Qed.
 Print Assumptions C19_fun2core_size_statement_unscoped_refuted.
 
 (* in the size alone: quadratic, for every program the translation accepts *)
-Theorem C19_fun2core_size_quadratic : forall p c, compile_prog p = Fun2Core.Ok c -> calls_main_prog p = false ->
-  size_cprog c <= size_fcprog p * (10 + 2 * size_fcprog p).
+Theorem C19_fun2core_size_quadratic : forall p c, compile_prog p = Fun2Core.Ok c ->
+  size_cprog c <= size_fcprog p * (10 + 2 * size_fcprog p) + entry_params p.
 Proof. exact fun2core_size_quadratic. Qed.
 Print Assumptions C19_fun2core_size_quadratic.
 
@@ -353,12 +384,12 @@ Print Assumptions C19_rv_compile_size.
      b_linearized S = S (5 + 3 S)      (Model/SizeFun.v);
    closed forms with w = pl_w p = 12 W (4 + V), d = pl_d p = 4 + X (4 + A): d w^2 and 8 (d w^2)^2. *)
 Theorem C19_pipeline_ax_size : forall p c q s,
-  compile_prog p = Fun2Core.Ok c -> calls_main_prog p = false -> focus_prog c = Backend.Ok q -> shrink_prog q = SOk s ->
+  compile_prog p = Fun2Core.Ok c -> focus_prog c = Backend.Ok q -> shrink_prog q = SOk s ->
   ax_size_prog s <= pipeline_shrunk_bound p /\ ax_size_prog (linearize s) <= pipeline_ax_bound p /\
   pipeline_shrunk_bound p <= pl_d p * pl_w p ^ 2 /\ pipeline_ax_bound p <= 8 * (pl_d p * pl_w p ^ 2) ^ 2.
 Proof.
-  intros p c q s H1 Hncm H2 H3. split; [exact (pipeline_shrunk_size p c q s H1 Hncm H2 H3)|].
-  split; [exact (pipeline_ax_size p c q s H1 Hncm H2 H3)|]. split; [exact (pipeline_shrunk_closed p) | exact (pipeline_ax_closed p)].
+  intros p c q s H1 H2 H3. split; [exact (pipeline_shrunk_size p c q s H1 H2 H3)|].
+  split; [exact (pipeline_ax_size p c q s H1 H2 H3)|]. split; [exact (pipeline_shrunk_closed p) | exact (pipeline_ax_closed p)].
 Qed.
 Print Assumptions C19_pipeline_ax_size.
 
@@ -383,13 +414,13 @@ Print Assumptions C19_cg_bound_linearize.
    of the linearized program have distinct ids (sub_wf; implied by lin_check_prog, which C05_linearize_exact
    gives for prog_ok inputs). *)
 Theorem C19_pipeline_size : forall p c q s lc r n lc',
-  compile_prog p = Fun2Core.Ok c -> calls_main_prog p = false -> focus_prog c = Backend.Ok q -> shrink_prog q = SOk s ->
+  compile_prog p = Fun2Core.Ok c -> focus_prog c = Backend.Ok q -> shrink_prog q = SOk s ->
   sub_wf_prog (linearize s) = true ->
   x86_compile (linearize s) lc = Backend.Ok (r, n, lc') ->
   len r <= 30 + x86_K * (pipeline_ax_bound p * (5 + 4 * pipeline_shrunk_bound p)) /\
   pipeline_ax_bound p * (5 + 4 * pipeline_shrunk_bound p) <= 72 * (pl_d p * pl_w p ^ 2) ^ 3.
 Proof.
-  intros p c q s lc r n lc' H1 Hncm H2 H3 HW H5. split; [exact (pipeline_x86_size p c q s lc r n lc' H1 Hncm H2 H3 HW H5)|].
+  intros p c q s lc r n lc' H1 H2 H3 HW H5. split; [exact (pipeline_x86_size p c q s lc r n lc' H1 H2 H3 HW H5)|].
   exact (pipeline_cg_closed p).
 Qed.
 Print Assumptions C19_pipeline_size.
@@ -397,7 +428,7 @@ Print Assumptions C19_pipeline_size.
 (* the guard discharged through C05 (linearize_exact) when the shrunk program passes the boolean checker prog_ok
    (typed, binders unique); modelrun evaluates sub_wf on the real linearized program of every case *)
 Theorem C19_pipeline_size_prog_ok : forall p c q s lc r n lc',
-  compile_prog p = Fun2Core.Ok c -> calls_main_prog p = false -> focus_prog c = Backend.Ok q -> shrink_prog q = SOk s ->
+  compile_prog p = Fun2Core.Ok c -> focus_prog c = Backend.Ok q -> shrink_prog q = SOk s ->
   prog_ok s = true ->
   x86_compile (linearize s) lc = Backend.Ok (r, n, lc') ->
   len r <= 30 + x86_K * (pipeline_ax_bound p * (5 + 4 * pipeline_shrunk_bound p)).
